@@ -377,11 +377,11 @@ impl<'c, KD: Kind, const N: usize> MapEng<'c, KD, N> {
             for o in &obs {
                 match slot.model.get(&o.raw) {
                     Some(e) => {
-                        if e.val != o.val || (KD::TRACKED && e.vid != o.vid) {
+                        if e.val != o.val || (KD::IDENT && e.vid != o.vid) {
                             same_state = false;
                             why = format!("key {}: stored value {} (object #{}) but the model has {} (object #{})", o.raw, o.val, o.vid, e.val, e.vid);
                         }
-                        if KD::TRACKED && e.kid != o.kid {
+                        if KD::IDENT && e.kid != o.kid {
                             same_ident = false;
                         }
                     }
@@ -686,7 +686,7 @@ pub fn run<KD: Kind, const N: usize>(case: &Case, cx: &mut Ctx) {
 
 /// Dispatch on (kind, capacity).
 pub fn run_dyn(case: &Case, cx: &mut Ctx) {
-    use mmv_base::kinds::{Large, NoDrop, Plain, Str, Tracked, ZstBoth, ZstKey, ZstVal};
+    use mmv_base::kinds::{Large, NoDrop, Plain, Str, Tagged, Tracked, ZstBoth, ZstKey, ZstVal};
     let n = mmv_base::capacity_of(case);
     match case.kind % mmv_base::case::NKINDS {
         0 => mmv_base::by_cap!(run, Tracked, n, case, cx, [0, 1, 2, 3, 4, 6, 9, 17, 33, 70]),
@@ -696,6 +696,7 @@ pub fn run_dyn(case: &Case, cx: &mut Ctx) {
         4 => mmv_base::by_cap!(run, ZstKey, n, case, cx, [0, 1]),
         5 => mmv_base::by_cap!(run, ZstVal, n, case, cx, [0, 1, 3]),
         6 => mmv_base::by_cap!(run, NoDrop, n, case, cx, [0, 1, 2, 3, 4, 6]),
-        _ => mmv_base::by_cap!(run, ZstBoth, n, case, cx, [0, 1, 2]),
+        7 => mmv_base::by_cap!(run, ZstBoth, n, case, cx, [0, 1, 2]),
+        _ => mmv_base::by_cap!(run, Tagged, n, case, cx, [0, 1, 2, 3, 4, 6, 9]),
     }
 }
